@@ -102,6 +102,8 @@ pub const FRAGMENTS: &[&str] = &[
     "(f 4)",
     "undefined-name",
     "(string? \")\")",
+    "(define z 9) (if)",
+    "z",
 ];
 
 #[derive(Debug, PartialEq, Clone)]
@@ -127,7 +129,24 @@ pub fn reference_session(lines: &[&str], predicate: fn(&str) -> bool) -> Result<
             }
             pending.push_str(l);
             if predicate(&pending) {
-                match it.eval(pending.chars()) {
+                // "evaluating the same forms one after another": the submission is split into its
+                // forms by the reference reader and each form is evaluated on its own; the value of
+                // the last one is printed, the first error ends the submission
+                let forms: Vec<String> = match crate::reflex::tokenize(&pending, crate::reflex::Mode::default()) {
+                    crate::reflex::Lexed::Tokens(t) => match crate::reflex::read_all(&t) {
+                        Ok(data) => data.iter().map(|d| d.to_string()).collect(),
+                        Err(_) => vec![pending.clone()],
+                    },
+                    _ => vec![pending.clone()],
+                };
+                let mut last = Ok(None);
+                for f in &forms {
+                    last = it.eval(f.chars());
+                    if last.is_err() {
+                        break;
+                    }
+                }
+                match last {
                     Ok(Some(Value::Void)) | Ok(None) => {}
                     Ok(Some(v)) => out.push(format!("{}", v)),
                     Err(e) => err.push(format!("{}", e)),
